@@ -1,13 +1,14 @@
 import GeosModel.Proofs.Kernel.FilterGrid
 /-!
-# The double-double fallback is exact on the grid up to 2^24 units  (PARTIAL w.r.t. the 2^25 grid)
+# The double-double fallback is exact on the whole 2^25 grid
 
-For coordinates of at most `2^24` units every coordinate difference is at most `2^25`, so the Veltkamp
-products `SPLIT · d` (`SPLIT = 2^27 + 1`) are at most `2^52 + 2^25 ≤ 2^53` and are exact; every operation
-of `DD::selfAdd` / `DD::selfMultiply` then acts on exactly representable integers: the high words carry
-the exact values, all low words are zero, and `orientationIndexDD` returns the sign of `Kernel.det`.
-(For the band `(2^24, 2^25]` the split products need one rounding; that case is covered by the
-correspondence stream only.)
+Every coordinate difference `d` the path forms satisfies `|d| ≤ 2^26`.  For `|d| ≤ 2^26 - 1` the Veltkamp
+product `SPLIT · d` (`SPLIT = 2^27 + 1`) is at most `(2^27+1)(2^26-1) < 2^53` and exact; for `d = ±2^26` it is
+`(2^27+1)·2^26`, which rounds to itself with the exponent shifted by one, and the two subtractions that
+follow bring the exponent back.  Either way the split returns the operand itself and a zero tail
+(`veltkamp_hi`), hence every operation of `DD::selfAdd` / `DD::selfMultiply` acts on exactly representable
+integers: the high words carry the exact values, all low words are zero, and `orientationIndexDD` returns
+the sign of `Kernel.det`.
 -/
 namespace GeosModel.Filter
 open GeosModel.Kernel
@@ -17,7 +18,7 @@ theorem neg_zero' : Dy.neg Dy.zero = Dy.zero := by decide
 theorem SPLIT_eq : SPLIT = Dy.mk' 134217729 0 := by decide
 
 /-- `selfAdd` on integers with a common exponent and zero low words is exact -/
-theorem selfAdd_exact (a b k : Int) (ha : a.natAbs ≤ 2 ^ 51) (hb : b.natAbs ≤ 2 ^ 51) :
+theorem selfAdd_exact (a b k : Int) (ha : a.natAbs ≤ 2 ^ 52) (hb : b.natAbs ≤ 2 ^ 52) :
     DD.selfAdd roundNE ⟨Dy.mk' a k, Dy.zero⟩ (Dy.mk' b k) Dy.zero = ⟨Dy.mk' (a + b) k, Dy.zero⟩ := by
   have z : Dy.zero = Dy.mk' 0 k := (mk'_zero k).symm
   rw [z]
@@ -38,24 +39,80 @@ theorem fadd_zero_right (n e : Int) (h : n.natAbs ≤ 2 ^ 53) :
 theorem fsub_self (n e : Int) (h : n.natAbs ≤ 2 ^ 53) : fsub roundNE (Dy.mk' n e) (Dy.mk' n e) = Dy.zero := by
   rw [fsub, mk'_sub, Int.sub_self, mk'_zero, roundNE_zero]
 
-/-- `selfMultiply` on integers of at most `2^25` with zero low words is exact -/
-theorem selfMultiply_exact (a b k j : Int) (ha : a.natAbs ≤ 2 ^ 25) (hb : b.natAbs ≤ 2 ^ 25) :
+/-- subtraction when the left operand's exponent is one higher -/
+theorem sub_shift1 (q n k : Int) (hq : q ≠ 0) (hn : n ≠ 0) :
+    Dy.sub (Dy.mk' q (k + 1)) (Dy.mk' n k) = Dy.mk' (2 * q - n) k := by
+  rw [mk'_of_ne hq, mk'_of_ne hn]
+  unfold Dy.sub Dy.add Dy.neg
+  have h1 : ¬ (q = 0) := hq
+  have h2 : ¬ (-n = 0) := by omega
+  simp only [h1, h2, if_false]
+  have e1 : min (k + 1) k = k := by omega
+  rw [e1]
+  have e2 : (k + 1 - k).toNat = 1 := by omega
+  have e3 : (k - k).toNat = 0 := by omega
+  rw [e2, e3]
+  congr 1
+  omega
+
+theorem roundNat_ext : roundNat 9007199321849856 = (4503599660924928, 1) := by decide
+
+/-- `SPLIT · (±2^26)` is representable, with the exponent shifted by one -/
+theorem fmul_split_ext (s k : Int) (hs : s = 1 ∨ s = -1) :
+    fmul roundNE SPLIT (Dy.mk' (s * 67108864) k) = Dy.mk' (s * 4503599660924928) (k + 1) := by
+  rw [fmul, SPLIT_eq, mk'_mul, Int.zero_add]
+  rcases hs with rfl | rfl
+  · rw [mk'_of_ne (by decide)]
+    unfold roundNE
+    simp only
+    have : (134217729 * (1 * 67108864) : Int).natAbs = 9007199321849856 := by decide
+    rw [this, roundNat_ext]
+    simp
+  · rw [mk'_of_ne (by decide)]
+    unfold roundNE
+    simp only
+    have : (134217729 * (-1 * 67108864) : Int).natAbs = 9007199321849856 := by decide
+    rw [this, roundNat_ext]
+    simp
+
+/-- **Veltkamp split of a grid difference**: `C = SPLIT·a`, `hx = C - (C - a)` returns `a` itself, for every
+`|a| ≤ 2^26` -/
+theorem veltkamp_hi (a k : Int) (ha : a.natAbs ≤ 2 ^ 26) :
+    fsub roundNE (fmul roundNE SPLIT (Dy.mk' a k))
+      (fsub roundNE (fmul roundNE SPLIT (Dy.mk' a k)) (Dy.mk' a k)) = Dy.mk' a k := by
+  have e26 : (2 : Nat) ^ 26 = 67108864 := by decide
+  rw [e26] at ha
+  by_cases hext : a.natAbs = 67108864
+  · have hs : a = 1 * 67108864 ∨ a = -1 * 67108864 := by omega
+    rcases hs with h | h
+    · rw [h, fmul_split_ext 1 k (Or.inl rfl)]
+      have e1 : fsub roundNE (Dy.mk' (1 * 4503599660924928) (k + 1)) (Dy.mk' (1 * 67108864) k)
+          = Dy.mk' 9007199254740992 k := by
+        rw [fsub, sub_shift1 _ _ _ (by decide) (by decide), roundNE_mk' _ _ (by decide)]; congr 1
+      rw [e1, fsub, sub_shift1 _ _ _ (by decide) (by decide), roundNE_mk' _ _ (by decide)]; congr 1
+    · rw [h, fmul_split_ext (-1) k (Or.inr rfl)]
+      have e1 : fsub roundNE (Dy.mk' (-1 * 4503599660924928) (k + 1)) (Dy.mk' (-1 * 67108864) k)
+          = Dy.mk' (-9007199254740992) k := by
+        rw [fsub, sub_shift1 _ _ _ (by decide) (by decide), roundNE_mk' _ _ (by decide)]; congr 1
+      rw [e1, fsub, sub_shift1 _ _ _ (by decide) (by decide), roundNE_mk' _ _ (by decide)]; congr 1
+  · have ha' : a.natAbs ≤ 67108863 := by omega
+    have hC : fmul roundNE SPLIT (Dy.mk' a k) = Dy.mk' (134217729 * a) k := by
+      rw [fmul, SPLIT_eq, mk'_mul, Int.zero_add, roundNE_mk' _ _ (by omega)]
+    have hx1 : fsub roundNE (Dy.mk' (134217729 * a) k) (Dy.mk' a k) = Dy.mk' (134217728 * a) k := by
+      rw [fsub, mk'_sub, roundNE_mk' _ _ (by omega)]; congr 1; omega
+    have hx2 : fsub roundNE (Dy.mk' (134217729 * a) k) (Dy.mk' (134217728 * a) k) = Dy.mk' a k := by
+      rw [fsub, mk'_sub, roundNE_mk' _ _ (by omega)]; congr 1; omega
+    rw [hC, hx1, hx2]
+
+/-- `selfMultiply` on grid differences (`|a|, |b| ≤ 2^26`) with zero low words is exact -/
+theorem selfMultiply_exact (a b k j : Int) (ha : a.natAbs ≤ 2 ^ 26) (hb : b.natAbs ≤ 2 ^ 26) :
     DD.selfMultiply roundNE ⟨Dy.mk' a k, Dy.zero⟩ (Dy.mk' b j) Dy.zero = ⟨Dy.mk' (a * b) (k + j), Dy.zero⟩ := by
-  have hab : (a * b).natAbs ≤ 2 ^ 50 := Nat.le_trans (natAbs_mul_le ha hb) (by decide)
-  -- the Veltkamp split of both operands returns the operand itself and a zero tail
-  have hC : fmul roundNE SPLIT (Dy.mk' a k) = Dy.mk' (134217729 * a) k := by
-    rw [fmul, SPLIT_eq, mk'_mul, Int.zero_add, roundNE_mk' _ _ (by omega)]
-  have hc : fmul roundNE SPLIT (Dy.mk' b j) = Dy.mk' (134217729 * b) j := by
-    rw [fmul, SPLIT_eq, mk'_mul, Int.zero_add, roundNE_mk' _ _ (by omega)]
-  have hx1 : fsub roundNE (Dy.mk' (134217729 * a) k) (Dy.mk' a k) = Dy.mk' (134217728 * a) k := by
-    rw [fsub, mk'_sub, roundNE_mk' _ _ (by omega)]; congr 1; omega
-  have hx2 : fsub roundNE (Dy.mk' (134217729 * a) k) (Dy.mk' (134217728 * a) k) = Dy.mk' a k := by
-    rw [fsub, mk'_sub, roundNE_mk' _ _ (by omega)]; congr 1; omega
+  have hab : (a * b).natAbs ≤ 2 ^ 52 := Nat.le_trans (natAbs_mul_le ha hb) (by decide)
+  have e26 : (2 : Nat) ^ 26 = 67108864 := by decide
+  have hva := veltkamp_hi a k ha
+  have hvb := veltkamp_hi b j hb
+  rw [e26] at ha hb
   have htx : fsub roundNE (Dy.mk' a k) (Dy.mk' a k) = Dy.zero := fsub_self a k (by omega)
-  have hy1 : fsub roundNE (Dy.mk' (134217729 * b) j) (Dy.mk' b j) = Dy.mk' (134217728 * b) j := by
-    rw [fsub, mk'_sub, roundNE_mk' _ _ (by omega)]; congr 1; omega
-  have hy2 : fsub roundNE (Dy.mk' (134217729 * b) j) (Dy.mk' (134217728 * b) j) = Dy.mk' b j := by
-    rw [fsub, mk'_sub, roundNE_mk' _ _ (by omega)]; congr 1; omega
   have hty : fsub roundNE (Dy.mk' b j) (Dy.mk' b j) = Dy.zero := fsub_self b j (by omega)
   have hP : fmul roundNE (Dy.mk' a k) (Dy.mk' b j) = Dy.mk' (a * b) (k + j) := by
     rw [fmul, mk'_mul, roundNE_mk' _ _ (by omega)]
@@ -64,16 +121,17 @@ theorem selfMultiply_exact (a b k j : Int) (ha : a.natAbs ≤ 2 ^ 25) (hb : b.na
   have hPz : fadd roundNE (Dy.mk' (a * b) (k + j)) Dy.zero = Dy.mk' (a * b) (k + j) :=
     fadd_zero_right _ _ (by omega)
   unfold DD.selfMultiply
-  simp only [hC, hc, hx1, hx2, htx, hy1, hy2, hty, hP, hP0, fmul_zero_left, fmul_zero_right, fadd_zero_zero, hPz]
+  simp only [hva, hvb, htx, hty, hP, hP0, fmul_zero_left, fmul_zero_right, fadd_zero_zero, hPz]
 
-/-- **dd_exact_grid** (PARTIAL: bound `2^24`): the double-double evaluation returns the exact orientation -/
-theorem dd_exact_grid24 (k : Int) {a b c : Pt}
-    (ha : OnGrid (2 ^ 24) a) (hb : OnGrid (2 ^ 24) b) (hc : OnGrid (2 ^ 24) c) :
+/-- **dd_exact_grid**: on the whole `2^25` grid, for every unit `2^k`, the double-double evaluation returns the
+exact orientation -/
+theorem dd_exact_grid25 (k : Int) {a b c : Pt}
+    (ha : OnGrid gridBound a) (hb : OnGrid gridBound b) (hc : OnGrid gridBound c) :
     orientationIndexDD roundNE (ofGrid k a.x) (ofGrid k a.y) (ofGrid k b.x) (ofGrid k b.y) (ofGrid k c.x) (ofGrid k c.y)
       = orient a b c := by
   obtain ⟨hax, hay⟩ := ha; obtain ⟨hbx, hby⟩ := hb; obtain ⟨hcx, hcy⟩ := hc
-  have e24 : (2 : Nat) ^ 24 = 16777216 := by decide
-  rw [e24] at hax hay hbx hby hcx hcy
+  have e25 : gridBound = 33554432 := by decide
+  rw [e25] at hax hay hbx hby hcx hcy
   unfold orientationIndexDD DD.add DD.mul DD.sub DD.ofD ofGrid
   simp only [mk'_neg]
   rw [selfAdd_exact b.x (-a.x) k (by omega) (by omega), selfAdd_exact b.y (-a.y) k (by omega) (by omega),
@@ -82,10 +140,10 @@ theorem dd_exact_grid24 (k : Int) {a b c : Pt}
   rw [selfMultiply_exact (b.x + -a.x) (c.y + -b.y) k k (by omega) (by omega),
     selfMultiply_exact (b.y + -a.y) (c.x + -b.x) k k (by omega) (by omega)]
   simp only [mk'_neg, neg_zero']
-  have h1 : ((b.x + -a.x) * (c.y + -b.y)).natAbs ≤ 2 ^ 50 :=
-    Nat.le_trans (natAbs_mul_le (m := 2 ^ 25) (n := 2 ^ 25) (by omega) (by omega)) (by decide)
-  have h2 : ((b.y + -a.y) * (c.x + -b.x)).natAbs ≤ 2 ^ 50 :=
-    Nat.le_trans (natAbs_mul_le (m := 2 ^ 25) (n := 2 ^ 25) (by omega) (by omega)) (by decide)
+  have h1 : ((b.x + -a.x) * (c.y + -b.y)).natAbs ≤ 2 ^ 52 :=
+    Nat.le_trans (natAbs_mul_le (m := 2 ^ 26) (n := 2 ^ 26) (by omega) (by omega)) (by decide)
+  have h2 : ((b.y + -a.y) * (c.x + -b.x)).natAbs ≤ 2 ^ 52 :=
+    Nat.le_trans (natAbs_mul_le (m := 2 ^ 26) (n := 2 ^ 26) (by omega) (by omega)) (by decide)
   rw [selfAdd_exact _ _ (k + k) (by omega) (by omega)]
   have hdet : (b.x + -a.x) * (c.y + -b.y) + -((b.y + -a.y) * (c.x + -b.x)) = det a b c := by
     unfold det; ring
